@@ -35,6 +35,10 @@ func run(param json.RawMessage, ctx *explore.Ctx, viols *[]xrun.Viol) string {
 func main() {
 	flag.Parse()
 	par.ServeIfWorker(map[string]par.Handler{"x": xrun.Handler(run)})
+	if v, ok := ev.ReplayRequested(); ok {
+		xrun.Replay(v, run)
+		return
+	}
 	if os.Getenv("VERIF_DEBUG") != "" {
 		cfg := loopworld.Cfg{Native: os.Getenv("VERIF_DEBUG") == "native", Remote2: true, Straddle: true, MaxVisits: 2}
 		ctx := explore.NewCtx(nil)
